@@ -20,6 +20,15 @@ CLAIMED = {
     ),
 }
 
+CLAIMED["C11"] = dict(
+    category="model_checking",
+    engine="bfs+loom",
+    technique="explicit-state BFS of the real State cache to closure + loom (DPOR) interleaving exploration of the real Mutex<Cache> + exhaustive (threads, chunksize, npoints) enumeration of par_pure",
+    text="All reachable cache states of a State (any history length) are enumerated on the real object with the invariant 'every returned, cached and derived value equals the fresh-state value' checked in every state and every discovered state re-derived by replaying its trace on a fresh State; all interleavings of 2-3 threads issuing order-dependent request pairs (and clone) on one shared State are explored with loom on the library's own mutex; every par_pure configuration is compared with the sequential diagram and the stand-alone solves.",
+    design_ref="§4.2, §4.4, §5 C11",
+    note="Trusted base: loom's model of std::sync::Mutex; the BFS canonical key (sorted cache map incl. value bits; hit/miss counters are never read by getters). rayon's work-stealing schedule is not controllable: par_pure schedules are uncontrolled, only its configuration space is enumerated. Continuous state variables: a few fixed states per model.",
+)
+
 NOT_YET = "check not built yet (work in progress; see DESIGN.md §9 build order) - not a claim that the technique cannot apply"
 
 ALL = ["C%02d" % i for i in range(1, 21)]
